@@ -39,6 +39,10 @@ CLAIMED = {
                  "(sleep-set reduced), tables and random draws symbolic; at quiescence z3/concrete checks decide: no handler raised, everyone finished exactly at cycle k "
                  "(or at once without neighbour), nothing undelivered.",
             "Bounded: <= 3 computations, domain 2, k <= 3; canonical schedule for DSA on chain-3 in quick (all schedules in thorough at k=1); a run longer than 150 transitions is reported as non-termination.", "4/C07", S),
+    "C08": ("S", "The real SynchronousComputationMixin driven by a probe algorithm that addresses a solver-chosen subset of neighbours each round (return value or post_msg), "
+                 "and by real DSA-tuto/Max-Sum computations; every start order and per-channel-FIFO interleaving is explored (sleep-set reduced); the oracle compares each "
+                 "on_new_cycle call with the tagged messages actually sent in the previous round.",
+            "Bounded: pair (3 rounds), chain-3 (2 rounds), triangle and star-3 (1 complete round in quick, 2 in thorough), subsets fixed per computation on the larger graphs; NCBB not driven.", "4/C08", S),
     "C12": ("S", "set_value_for_assignment, join and projection executed on symbolic matrix tables; the cell-wise algebraic definition is one "
                  "solver query per path, for every table value, assignment, scope pair and both argument forms.",
             "Bounded: 4 variables with domains 2,2,3,2, scopes of size <= 3, integer (and real, thorough) entries |c| <= 2^40; numpy float64 rounding above 2^53 not modelled.", "4/C12", S),
